@@ -12,8 +12,36 @@ KIND_DECL = {
     "arr": ("[2]int", "string"), "stc": ("skey", "int64"), "big": ("bigk", "bigk"),
     # keys / elems at the 128-byte boundary between inline and indirect storage (abi.MapMaxKeyBytes/MapMaxElemBytes)
     "k127": ("[127]byte", "int64"), "k128": ("[16]int64", "int64"), "k129": ("[129]byte", "int64"), "sk128": ("s128", "int64"),
+    "pad": ("F0", "int64"), "ipd": ("F1", "int64"), "c128": ("complex128", "int64"), "c64": ("complex64", "int64"),
+    "cst": ("F11", "int64"),
     "v127": ("int64", "[127]byte"), "v128": ("int64", "[16]int64"), "v129": ("int64", "[129]byte"), "sv128": ("int64", "s128"),
 }
+# named types used by BOTH the regular-memory harness (reference: gc's own descriptors) and the e2e program (read-back of
+# the flag llgo emitted); F0 / F1 / F11 are also the key types of the kinds `pad` / `ipd` / `cst`
+FIXED_TYPES = [
+    ("F0", "struct{ A, B int64; C int8 }"), ("F1", "struct{ A int8; B int64 }"), ("F2", "struct{ A int64; B int32 }"),
+    ("F3", "struct{ A, B int32 }"), ("F4", "struct{ A float64 }"), ("F5", "struct{ A int64; _ int64 }"),
+    ("F6", "struct{ P *int; N int32 }"), ("F7", "struct{ A int64; S string }"), ("F8", "[3]struct{ A int16; B int8 }"),
+    ("F9", "struct{ A [2]int32; B int64 }"), ("F10", "struct{ A int64; Z [0]int32 }"), ("F11", "struct{ A complex128; B int32 }"),
+    ("F12", "struct{ A any }"), ("F13", "[17]int64"), ("F14", "struct{ A int8; B int8; C int16; D int32 }"),
+    ("F15", "struct{ A struct{ X int64; Y int8 }; B int8 }"), ("F16", "struct{ A uintptr; B bool }"), ("F17", "struct{}"),
+]
+PADDED = ["pad", "ipd", "c128", "c64", "cst"]      # padded-struct keys (padding dirtied on purpose) and complex keys
+DIRTY = {"pad", "ipd", "cst", "any"}
+CS64 = [0, 1 << 63, 0x7ff8000000000001, 0x7ff0000000000000, 0xfff0000000000000, 0x3ff0000000000000, 0xbff0000000000000]
+CS32 = [0, 1 << 31, 0x7fc00001, 0x7f800000, 0xff800000, 0x3f800000, 0xbf800000]
+
+
+def _cpart(bits, w):
+    if w == 8:
+        nan = (bits >> 52) & 0x7ff == 0x7ff and bits & ((1 << 52) - 1) != 0
+        zero = bits in (0, 1 << 63)
+    else:
+        nan = (bits >> 23) & 0xff == 0xff and bits & ((1 << 23) - 1) != 0
+        zero = bits in (0, 1 << 31)
+    return None if nan else (0 if zero else bits)
+
+
 BOUNDARY = ["k127", "k128", "k129", "sk128", "v127", "v128", "v129", "sv128"]
 _MK = {"[127]byte": "mkb127", "[16]int64": "mk16", "[129]byte": "mkb129", "s128": "mks128"}
 _NUM = {"[127]byte": "numb127", "[16]int64": "num16", "[129]byte": "numb129", "s128": "nums128"}
@@ -66,6 +94,33 @@ def e2e_universe(rng, kind, n):
     elif kind == "big":
         for v in dict.fromkeys(rng.randint(-1000, 100000) for _ in range(n)):
             ks.append(EKey("mkbig(%d)" % v, "g %d" % v, ("g", v)))
+    elif kind == "pad":
+        seen = set()
+        while len(seen) < n:
+            seen.add((rng.randint(-5, 100000), rng.choice([0, 1, 7]), rng.randint(-128, 127)))
+        for (a, b, c) in sorted(seen):
+            ks.append(EKey("F0{%d, %d, %d}" % (a, b, c), "P %d %d %d" % (a, b, c), ("P", a, b, c)))
+    elif kind == "ipd":
+        seen = set()
+        while len(seen) < n:
+            seen.add((rng.randint(-128, 127), rng.randint(-5, 100000)))
+        for (a, b) in sorted(seen):
+            ks.append(EKey("F1{%d, %d}" % (a, b), "Q %d %d" % (a, b), ("Q", a, b)))
+    elif kind in ("c128", "c64", "cst"):
+        w, S, mk, tag = (8, CS64, "cb", "c") if kind != "c64" else (4, CS32, "cb32", "d")
+        pairs = [(a, b) for a in S for b in S]
+        while len(pairs) < n:
+            x = f64bits(float(rng.randint(-300, 3000)) / rng.choice([1, 2, 4])) if w == 8 else \
+                struct.unpack("<I", struct.pack("<f", float(rng.randint(-300, 3000)) / rng.choice([1, 2, 4])))[0]
+            pairs.append((x, rng.choice(S)) if rng.random() < 0.7 else (rng.choice(S), x))
+        for i, (a, b) in enumerate(dict.fromkeys(pairs)):
+            ca, cb_ = _cpart(a, w), _cpart(b, w)
+            refl = ca is not None and cb_ is not None
+            if kind == "cst":
+                n3 = i % 3 - 1
+                ks.append(EKey("F11{cb(0x%x, 0x%x), %d}" % (a, b, n3), "C %d %d %d" % (a, b, n3), ("C", ca, cb_, n3), refl=refl))
+            else:
+                ks.append(EKey("%s(0x%x, 0x%x)" % (mk, a, b), "%s %d %d" % (tag, a, b), (tag, ca, cb_), refl=refl))
     elif kind in BOUNDARY:
         kt = KIND_DECL[kind][0]
         vals = list(dict.fromkeys([1, 2, 255, 256, 65536] + [rng.randint(3, 10 ** 6) for _ in range(n)]))
@@ -80,6 +135,13 @@ def e2e_universe(rng, kind, n):
               EKey("map[int]int{}", "?", ("M",), unh=True), EKey("struct{ X []int }{}", "?", ("U",), unh=True),
               EKey("any(fb(0x7ff8000000000001))", "f %d" % 0x7ff8000000000001, ("nan", 1), refl=False),
               EKey("any(fb(0))", "f 0", ("f", 0)), EKey("any(fb(0x8000000000000000))", "f %d" % (1 << 63), ("f", 0))]
+        for a in CS64[:4]:
+            for b in CS64[:3]:
+                ca, cb_ = _cpart(a, 8), _cpart(b, 8)
+                ks.append(EKey("any(cb(0x%x, 0x%x))" % (a, b), "c %d %d" % (a, b), ("c", ca, cb_), refl=ca is not None and cb_ is not None))
+        for i in range(10):
+            ks.append(EKey("F0{%d, %d, %d}" % (i, i % 3, i % 5), "P %d %d %d" % (i, i % 3, i % 5), ("P", i, i % 3, i % 5)))
+            ks.append(EKey("F1{%d, %d}" % (i % 7, i), "Q %d %d" % (i % 7, i), ("Q", i % 7, i)))
         m = max(3, (n - len(ks)) // 6)
         for i in range(m):
             v = rng.randint(-20, 5000)
@@ -330,6 +392,25 @@ func mkbig(v int64) bigk {
 	return b
 }
 
+func fb32(b uint32) float32 { return *(*float32)(unsafe.Pointer(&b)) }
+func bits32(f float32) uint32 { return *(*uint32)(unsafe.Pointer(&f)) }
+func cb(re, im uint64) complex128 { return complex(fb(re), fb(im)) }
+func cb32(re, im uint32) complex64 { return complex(fb32(re), fb32(im)) }
+
+// dirty leaves a freed heap block full of non-zero bytes behind (the record of a deferred call): the next
+// allocation of that size - e.g. the temporary a struct map key is materialised in - starts with dirty padding
+var sinkd int64
+
+func nopd(tag int64) { sinkd += tag }
+func dirty(tag int64) { defer nopd(tag) }
+
+// tflagOf reads the TFlagRegularMemory bit of the type descriptor the compiler emitted for x's dynamic type
+func tflagOf(x any) int {
+	tp := (*[2]unsafe.Pointer)(unsafe.Pointer(&x))[0]
+	return int(*(*uint8)(unsafe.Pointer(uintptr(tp) + 2*unsafe.Sizeof(uintptr(0)) + 4))) >> 3 & 1
+}
+
+@FIXED@
 type op struct{ c, k, v int32 }
 
 func mkarr(f []int) [][2]int {
@@ -364,6 +445,12 @@ func showAny(k any) {
 		print("a ", x[0], " ", x[1])
 	case skey:
 		print("T ", x.A, " [", x.B, "]")
+	case complex128:
+		print("c ", bits(real(x)), " ", bits(imag(x)))
+	case F0:
+		print("P ", x.A, " ", x.B, " ", x.C)
+	case F1:
+		print("Q ", x.A, " ", x.B)
 	default:
 		print("?")
 	}
@@ -375,6 +462,9 @@ SHOW = {
     "arr": 'print("a ", k[0], " ", k[1])', "stc": 'print("T ", k.A, " [", k.B, "]")',
     "big": 'if k != mkbig(k[0]) { print("g corrupt") } else { print("g ", k[0]) }',
 }
+SHOW.update({"pad": 'print("P ", k.A, " ", k.B, " ", k.C)', "ipd": 'print("Q ", k.A, " ", k.B)',
+             "c128": 'print("c ", bits(real(k)), " ", bits(imag(k)))', "c64": 'print("d ", bits32(real(k)), " ", bits32(imag(k)))',
+             "cst": 'print("C ", bits(real(k.A)), " ", bits(imag(k.A)), " ", k.B)'})
 for _k in BOUNDARY:
     _kt = KIND_DECL[_k][0]
     SHOW[_k] = 'print("i ", k)' if _kt == "int64" else 'print("K ", %s(k))' % _NUM[_kt]
@@ -404,6 +494,7 @@ func exec_@KIND@(id int32) (brk bool) {
 		}
 	}()
 	o := pool_@KIND@[id]
+	@PRE@
 	switch o.c {
 	case 0:
 		v := o.v
@@ -529,10 +620,13 @@ func vnum(s string) int64 {
         t = t.replace("@POOL@", ", ".join("{%d, %d, %d}" % o for o in pool))
         t = t.replace("@TOP@", ", ".join(str(i) for i in top))
         t = t.replace("@BODIES@", ", ".join("{" + ", ".join("{" + ", ".join(str(i) for i in seg) + "}" for seg in segs) + "}" for segs in bodies))
+        t = t.replace("@PRE@", "dirty(int64(id)*0x0101010101010101 + 0x7f)" if kind in DIRTY else "")
         t = t.replace("@SHOW@", SHOW[kind]).replace("@VSHOW@", VAL_SHOW[vt]).replace("@VSTORE@", VAL_STORE[vt])
         src += t
         meta[kind] = {"keys": keys, "pool": pool, "top": top, "bodies": bodies}
-    src += "\nfunc main() {\n" + "".join("\trun_%s()\n" % k for k in kinds) + "}\n"
+    src = src.replace("@FIXED@", "".join("type %s %s\n" % d for d in FIXED_TYPES))
+    src += "\nfunc main() {\n" + "".join('\tprintln("@", "tflag", "%s", tflagOf(%s{}))\n' % (d[0], d[0]) for d in FIXED_TYPES)
+    src += "".join("\trun_%s()\n" % k for k in kinds) + "}\n"
     return src, meta
 
 
